@@ -17,6 +17,7 @@ class SubsPcLrThumb(Opcode):
             else:
                 operand2 = self.imm32
                 result = add_with_carry(processor.registers.get(self.n), bit_not(operand2, 32), 1)[0]
+                processor.registers.cpsr_write_by_instr(processor.registers.get_spsr(), 0b1111, True)
                 if (processor.registers.cpsr.m == 0b11010 and
                         processor.registers.cpsr.j and
                         processor.registers.cpsr.t):
